@@ -237,7 +237,8 @@ func (g *c04Gen) printNode(scope map[string]string) *c04Tpl {
 }
 
 var c04Elem = map[string]string{"strs": "str", "ints": "int", "arr": "str", "rows": "ints", "people": "person", "ptrs": "pperson", "structs": "pperson",
-	"empty": "str", "nilslice": "str", "missing": "str", "scalar": "str", "tags": "str", "mixed": "str"}
+	"empty": "str", "nilslice": "str", "missing": "str", "scalar": "str", "tags": "str", "mixed": "str",
+	"mapany": "str", "mapstr": "str", "mapint": "str", "mappeople": "person"}
 
 func (g *c04Gen) siblings(depth int, scope map[string]string, colls map[string]string) []*c04Tpl {
 	var out []*c04Tpl
@@ -609,10 +610,10 @@ func runC04(r *Run) {
 	c04MixedItems(r)
 	r.Imports = []string{"Base.Val", "Model.Stack", "Model.Loops", "Model.ForHead"}
 	c04Heads(r)
-	r.Rule("loop nests up to depth 3 over slices and arrays of every element kind ([]any, []int, []string, [2]string and [3]int including all-zero arrays, [][]any, []map, []*S1 with nil members, []S1), lengths 0..3, nil, missing and non-sequence collections, " +
+	r.Rule("loop nests up to depth 3 over slices and arrays of every element kind ([]any, []int, []string, [2]string and [3]int including all-zero arrays, [][]any, []map, []*S1 with nil members, []S1), lengths 0..3, nil, missing and non-sequence collections, and over maps (map[string]any, map[string]string, map[int]string, a map of maps; 0..7 entries whose printed keys sort differently from their numeric / listing order), " +
 		"one- and two-variable forms, loop variables that do and do not shadow outer variables / root struct fields, per-item v-if, <template v-for>, followed or not by v-else (with whitespace or a comment in between); " +
 		"every instance and the sibling after each loop print names through {{ }}, through an expression ({{ n + '' }}) and through a bound attribute; non-trivial: a loop with >= 2 items, shadowing, or a v-else")
-	r.Assume("printed values contain no HTML-special characters and no '|'; maps are not looped over (iteration order unspecified)")
+	r.Assume("printed values contain no HTML-special characters and no '|'; map keys print differently from one another")
 	rr := r.Rng
 	n := 1500
 	if r.Thorough() {
@@ -660,6 +661,24 @@ func runC04(r *Run) {
 			person := func(name string, ok bool, tags int) Val {
 				return VMap(KV{K: "name", V: VStr(name)}, KV{K: "ok", V: VBool(ok)}, KV{K: "tags", V: VList("", strs(tags)...)})
 			}
+			mapKVs := func(mk func(string) Val) []KV {
+				var kvs []KV
+				for _, k := range []string{"b", "10", "a", "9", "Z", "ab", "-1"} {
+					if rr.Intn(2) == 0 {
+						kvs = append(kvs, KV{K: k, V: mk(k)})
+					}
+				}
+				return kvs
+			}
+			intKVs := func() []KV {
+				var kvs []KV
+				for _, k := range []int64{2, 9, 10, -1, 100, 0} {
+					if rr.Intn(2) == 0 {
+						kvs = append(kvs, KV{ZK: k, V: VStr(fmt.Sprintf("i%d", k))})
+					}
+				}
+				return kvs
+			}
 			var rows []Val
 			for i, k := 0, rr.Intn(3); i < k; i++ {
 				rows = append(rows, VList("", ints(rr.Intn(3))...))
@@ -680,11 +699,17 @@ func runC04(r *Run) {
 				KV{K: "ptrs", V: VList("*S1", Val{K: "ptr", T: "S1", P: &q1}, Val{K: "ptr", T: "S1"}, Val{K: "ptr", T: "S1", P: &q2})},
 				KV{K: "structs", V: VList("S1", q1, q2)},
 				KV{K: "empty", V: VList("")}, KV{K: "nilslice", V: VNil()}, KV{K: "scalar", V: VStr("not-a-list")},
+				// maps: ForEach visits them in the order of their printed keys ("10" before "9", "Z" before "a")
+				KV{K: "byname", V: VMap(mapKVs(func(k string) Val { return VStr("v-" + k) })...)},
+				KV{K: "smap", V: Val{K: "maps", M: mapKVs(func(k string) Val { return VStr("s-" + k) })}},
+				KV{K: "imap", V: Val{K: "mapi", M: intKVs()}},
+				KV{K: "pmap", V: VMap(mapKVs(func(k string) Val { return person(k, rr.Bool(), rr.Intn(3)) })...)},
 			)
 			scope["x"], scope["title"], scope["i"] = "str", "str", "str"
 			scope["e"] = "undef"
 			for k, v := range map[string]string{"strs": "strs", "ss": "strs", "ns": "ints", "arr": "arr", "iarr": "ints", "zeros": "ints", "rows": "rows", "people": "people", "ptrs": "ptrs", "structs": "structs",
-				"empty": "empty", "nilslice": "nilslice", "missing": "missing", "scalar": "scalar"} {
+				"empty": "empty", "nilslice": "nilslice", "missing": "missing", "scalar": "scalar",
+				"byname": "mapany", "smap": "mapstr", "imap": "mapint", "pmap": "mappeople"} {
 				colls[k] = v
 			}
 		}
